@@ -25,6 +25,7 @@ type c37Label struct {
 	SP     bool   `json:"sp,omitempty"`  // shared-poll route
 	Map    bool   `json:"map,omitempty"` // map route
 	Paged  bool   `json:"paged,omitempty"` // map channel whose state takes two pages
+	Pre    bool   `json:"pre,omitempty"`   // the bytes were queued by an earlier step (timer mode never flushes here): attributed now
 	Many   []int  `json:"many,omitempty"`  // enqueue through the per-channel batch writer (enqueueMany): payload lengths
 	Script string `json:"script,omitempty"` // ok | err | async
 	Tok    int    `json:"tok,omitempty"`
@@ -121,6 +122,7 @@ type c37H struct {
 	scripts map[string]string
 	pending map[int]func(ok bool)
 	mapPending map[int]int // token -> model name of a held map subscribe
+	qOffset int // queued bytes not yet attributed to a label (timer mode: connect reply, subscribe push)
 	cmdChan map[uint32]string // command id -> channel (to attribute subscribe results)
 	pages   map[string]*protocol.SubscribeResult // last state page of a paginating map subscription
 	nextTok int
@@ -214,7 +216,7 @@ func (h *c37H) snapshot() c37Snap {
 	sn := c37Snap{Closed: c.status == statusClosed, Held: len(c.channels) + len(c.mapSubscribing)}
 	c.mu.RUnlock()
 	if c.messageWriter != nil && !sn.Closed {
-		sn.Q = c.messageWriter.messages.Size()
+		sn.Q = c.messageWriter.messages.Size() - h.qOffset
 	}
 	return sn
 }
@@ -315,7 +317,12 @@ func c37Run(t *testing.T, limit, maxlen, maxq int, kind string, r *rand.Rand, fi
 		rep := ConnectReply{Credentials: &Credentials{UserID: "u"}}
 		if strings.Contains(kind, "delay") || strings.Contains(kind, "timer") {
 			rep.WriteDelay = 3 * time.Millisecond
-			rep.WriteWithTimer = strings.Contains(kind, "timer")
+			if strings.Contains(kind, "timer") {
+				// timer mode flushes under the writer mutex which enqueue also takes: a stuck transport would
+				// block the enqueue itself, so nothing is flushed at all during the case instead
+				rep.WriteDelay = 10 * time.Minute
+				rep.WriteWithTimer = true
+			}
 		}
 		return rep, nil
 	})
@@ -376,6 +383,13 @@ func c37Run(t *testing.T, limit, maxlen, maxq int, kind string, r *rand.Rand, fi
 		t.Fatalf("connect failed")
 	}
 	wasClosed := false
+	timerMode := strings.Contains(kind, "timer")
+	if timerMode {
+		h.mu.Lock()
+		h.blocked = true // no flush will happen: do not wait for markers
+		h.mu.Unlock()
+		h.qOffset = client.messageWriter.messages.Size() // the connect reply
+	}
 	h.settle(&wasClosed)
 	plug := func() {
 		// plug the writer: it takes the first message out of the queue and blocks in the transport
@@ -391,12 +405,13 @@ func c37Run(t *testing.T, limit, maxlen, maxq int, kind string, r *rand.Rand, fi
 	}
 	defer h.release()
 	plugAt := -1
-	if strings.HasPrefix(kind, "queue") {
+	if strings.HasPrefix(kind, "queue") && !timerMode {
 		plugAt = 0
 		if strings.Contains(kind, "many") {
 			plugAt = 1 // after the server-side subscription to the batched channel
 		}
 	}
+	lastQ := 0
 	manyBase := -1 // encoded size of a publication push minus its payload, learnt from the first batch
 	cmdID := uint32(1)
 	command := func(cmd *protocol.Command) {
@@ -415,7 +430,12 @@ func c37Run(t *testing.T, limit, maxlen, maxq int, kind string, r *rand.Rand, fi
 			plug()
 		}
 		var l c37Label
-		if fixed != nil {
+		if timerMode && h.qOffset > 0 && !wasClosed {
+			// attribute what earlier steps left in the queue
+			l = c37Label{Kind: "enqueue", Size: h.qOffset, Pre: true}
+			h.qOffset = 0
+			k--
+		} else if fixed != nil {
 			l = fixed[k]
 		} else if strings.Contains(kind, "many") {
 			if k == 0 {
@@ -549,13 +569,13 @@ func c37Run(t *testing.T, limit, maxlen, maxq int, kind string, r *rand.Rand, fi
 		case "srvsub":
 			c := h.client
 			c.mu.RLock()
-			fullBefore := limit > 0 && len(c.channels) >= limit && c.status != statusClosed
+			fullBefore := limit > 0 && len(c.channels)+len(c.mapSubscribing) >= limit && c.status != statusClosed
 			c.mu.RUnlock()
 			_ = client.Subscribe(c37Channel(l.Name, 3, false))
 			if fullBefore && !wasClosed {
 				select { // Client.Subscribe closes in a goroutine when the limit is reached
 				case <-h.tr.closeCh:
-				case <-time.After(2 * time.Second):
+				case <-time.After(300 * time.Millisecond):
 				}
 			}
 		case "mapnext":
@@ -578,6 +598,9 @@ func c37Run(t *testing.T, limit, maxlen, maxq int, kind string, r *rand.Rand, fi
 			cmdID++
 			command(&protocol.Command{Id: cmdID, Unsubscribe: &protocol.UnsubscribeRequest{Channel: c37Channel(l.Name, l.Len, l.SP)}})
 		case "enqueue":
+			if l.Pre {
+				break
+			}
 			if len(l.Many) > 0 {
 				before := client.messageWriter.messages.Size()
 				total := 0
@@ -642,7 +665,13 @@ func c37Run(t *testing.T, limit, maxlen, maxq int, kind string, r *rand.Rand, fi
 			}
 		}
 		obs = append(obs, evs)
-		snaps = append(snaps, h.snapshot())
+		if timerMode && l.Kind != "enqueue" && !h.isClosed() {
+			// e.g. the subscribe push of a server-side subscribe stays queued: attributed by the next label
+			h.qOffset = client.messageWriter.messages.Size() - lastQ
+		}
+		sn := h.snapshot()
+		lastQ = sn.Q
+		snaps = append(snaps, sn)
 	}
 	if strings.HasPrefix(kind, "queue") {
 		h.release()
